@@ -2,6 +2,7 @@ import PiqpProofs.Basic
 import PiqpModel.Solver
 import PiqpModel.Checkers
 import PiqpProofs.Properties.C01
+import PiqpProofs.Properties.C02
 
 /-!
 # C09 — reported diagnostics describe the returned point
@@ -98,4 +99,135 @@ theorem solved_objectives_identity (e : Env K n p m) (hk : e.pk = .identity) (ls
     u_dualUb e.data e.pre, id_primal, id_dualEq, id_dualIneq, id_dualLb, id_dualUb] at h
   exact ⟨h.1, h.2.1, h.2.2.1⟩
 end identity
+end Piqp.C09
+
+/-! ## Every exit, not only SOLVED (when no factorisation fails) -/
+
+namespace Piqp.C09
+section everyExit
+open Finset Piqp.C13 Piqp.C15 Piqp.C01 Piqp.C02
+variable {K : Type} [Field K] [LinearOrder K] [IsStrictOrderedRing K] [Inhabited K]
+variable {n p m : Nat}
+
+/-- the head of an iteration leaves the diagnostics those of its iterate, whether it recomputes them (first iteration) or they
+    were fresh already -/
+theorem head_fresh (e : Env K n p m) (b : Bool) (w : Work K n p m) (info : Info K) (hJ : b = true ∨ Fresh e w info) :
+    Fresh e (headInfo e b w info).1 (headInfo e b w info).2 := by
+  cases b
+  · rcases hJ with h | h
+    · exact absurd h (by simp)
+    · exact h.congr ⟨rfl, rfl, rfl, rfl, rfl, rfl, rfl, rfl, rfl, rfl⟩ ⟨rfl, rfl, rfl, rfl, rfl⟩ ⟨rfl, rfl, rfl, rfl, rfl, rfl⟩
+  · exact (fresh_upd e w info).congr ⟨rfl, rfl, rfl, rfl, rfl, rfl, rfl, rfl, rfl, rfl⟩ ⟨rfl, rfl, rfl, rfl, rfl⟩ ⟨rfl, rfl, rfl, rfl, rfl, rfl⟩
+
+/-- when no factorisation fails (an `OpsInv` invariant holds, as on every convex problem), the diagnostics returned at *every*
+    exit — SOLVED, either infeasibility verdict, MAX_ITER — are the ones `update_nr_residuals` computes for the returned iterate -/
+theorem loop_exit_fresh (e : Env K n p m) (Inv : NumState K n p m → Info K → Prop) (ho : OpsInv e.st e.cs (realOps e) Inv)
+    (hmax : (0 : Int) < e.st.maxIter) (c : Ctrl) (s : NumState K n p m) (info : Info K) (h : Inv s info)
+    (hJ : c.iter = 0 ∨ Fresh e s.1 info) :
+    Fresh e (loopG e.st e.cs (realOps e) c s info).1.2.1.1 (loopG e.st e.cs (realOps e) c s info).1.2.2 := by
+  fun_induction loopG e.st e.cs (realOps e) c s info
+  case case1 c s info hlt hi htest =>
+    have hb : (c.iter == 0) = true ∨ Fresh e s.1 info := by
+      rcases hJ with h | h
+      · left; simp [h]
+      · right; exact h
+    exact (head_fresh e (c.iter == 0) s.1 info hb).congr ⟨rfl, rfl, rfl, rfl, rfl, rfl, rfl, rfl, rfl, rfl⟩ ⟨rfl, rfl, rfl, rfl, rfl⟩ ⟨rfl, rfl, rfl, rfl, rfl, rfl⟩
+  case case2 c s info hlt hi htest s1 hp =>
+    have hb : (c.iter == 0) = true ∨ Fresh e s.1 info := by
+      rcases hJ with h | h
+      · left; simp [h]
+      · right; exact h
+    exact (head_fresh e (c.iter == 0) s.1 info hb).congr ⟨rfl, rfl, rfl, rfl, rfl, rfl, rfl, rfl, rfl, rfl⟩ ⟨rfl, rfl, rfl, rfl, rfl⟩ ⟨rfl, rfl, rfl, rfl, rfl, rfl⟩
+  case case3 c s info hlt hi htest s1 hp hd =>
+    have hb : (c.iter == 0) = true ∨ Fresh e s.1 info := by
+      rcases hJ with h | h
+      · left; simp [h]
+      · right; exact h
+    exact (head_fresh e (c.iter == 0) s.1 info hb).congr ⟨rfl, rfl, rfl, rfl, rfl, rfl, rfl, rfl, rfl, rfl⟩ ⟨rfl, rfl, rfl, rfl, rfl⟩ ⟨rfl, rfl, rfl, rfl, rfl, rfl⟩
+  case case4 c s info hlt hi htest s1 hp hd iter1 sh info2 s2 fa hfa sn info3 ru s4 ih =>
+    have h1 := ho.head (c.iter == 0) s info h
+    have h2 := ho.reg _ _ h1
+    have h3 := ho.shift _ _ h2
+    have h4 := ho.finetune _ _ h3
+    have h5 := (ho.rescale c.refineOn _ _ h4).2
+    refine ih (ho.step c.refineOn _ _ iter1 h5) (Or.inr ?_)
+    have hf := stepNum_fresh e c.refineOn fa.1.2 fa.1.1 { info2 with iter := iter1, factorRetires := 0 }
+    have ha := applyFlags_same e sn.1.1 ru.2.1 ru.2.2
+    have hd : DiagEq info3 ru.1 := by
+      simp only [ru]
+      split
+      · exact regUpdateIneq_diag _ _ _ _ _ _ _ _ _
+      · exact regUpdateEq_diag _ _ _ _
+    exact hf.congr ha.1 ha.2 hd
+  case case5 c s info hlt hi hterm s1 hp hd iter1 sh info2 s2 fa hfa hr ih =>
+    have h1 := ho.head (c.iter == 0) s info h
+    have h2 := ho.reg _ _ h1
+    have h3 := ho.shift _ _ h2
+    have h4 := ho.finetune _ _ h3
+    exact absurd (ho.rescale c.refineOn _ _ h4).1 hfa
+  case case6 c s info hlt hi hterm s1 hp hd sh info2 s2 fa hfa hr hf ih =>
+    have h1 := ho.head (c.iter == 0) s info h
+    have h2 := ho.reg _ _ h1
+    have h3 := ho.shift _ _ h2
+    have h4 := ho.finetune _ _ h3
+    exact absurd (ho.rescale c.refineOn _ _ h4).1 hfa
+  case case7 c s info hlt hi hterm s1 hp hd iter1 sh info2 s2 fa hfa hr hf =>
+    have h1 := ho.head (c.iter == 0) s info h
+    have h2 := ho.reg _ _ h1
+    have h3 := ho.shift _ _ h2
+    have h4 := ho.finetune _ _ h3
+    exact absurd (ho.rescale c.refineOn _ _ h4).1 hfa
+  case case8 c s info hlt =>
+    rcases hJ with h0 | hF
+    · exact absurd (by rw [h0]; exact hmax) hlt
+    · exact hF.congr ⟨rfl, rfl, rfl, rfl, rfl, rfl, rfl, rfl, rfl, rfl⟩ ⟨rfl, rfl, rfl, rfl, rfl⟩ ⟨rfl, rfl, rfl, rfl, rfl, rfl⟩
+
+theorem upd_gap (e : Env K n p m) (hk : e.pk ≠ .identity) (hc : 0 < e.pre.cInv) (w : Work K n p m) (info : Info K) :
+    (updateNrResiduals e w info).2.dualityGap =
+      vabs ((updateNrResiduals e w info).2.primalObj - (updateNrResiduals e w info).2.dualObj) := by
+  unfold updateNrResiduals
+  simp only [Precond.unscaleCost, hk, if_false]
+  rw [← mul_sub]
+  generalize (_ - _ : K) = t
+  unfold vabs
+  by_cases ht : t < 0
+  · have : e.pre.cInv * t < 0 := mul_neg_of_pos_of_neg hc ht
+    simp only [ht, this, if_true]; ring
+  · have : ¬ e.pre.cInv * t < 0 := not_lt.mpr (mul_nonneg (le_of_lt hc) (not_lt.mp ht))
+    simp only [ht, this, if_false]
+
+/-- **C09 at every exit of a convex problem.** When no factorisation fails — `hfac`, which C02/C14 prove for every back end on convex
+    data — the objectives reported at SOLVED, at either infeasibility verdict and at MAX_ITER (after at least one iteration:
+    `0 < max_iter`) are exactly the primal and dual objectives of the unscaled returned point for the *user's* data, the reported
+    gap is their distance, and `info.status` is the returned status. -/
+theorem convex_objectives_every_exit (e : Env K n p m) (d0 : Data K n p m) (hk : e.pk ≠ .identity)
+    (hs : Scaled d0 e.data e.pre) (hi : InvFull e.pre) (hc : 0 < e.pre.cInv)
+    (hfac : ∀ (b : Bool) (s : NumState K n p m) (i : Info K), ConvInv e s i → ((realOps e).factor b ((realOps e).rescale s i)).2 = true)
+    (hτ0 : 0 < e.st.tau) (hτ1 : e.st.tau < 1) (heps : 0 ≤ e.cs.machEps) (hft : 0 < e.st.regFinetuneLowerLimit)
+    (hmax : (0 : Int) < e.st.maxIter)
+    (ls : LoopState K n p m) (h0 : ls.c.iter = 0) (hinv : ConvInv e (ls.w, ls.kkt) ls.info) :
+    let w := (mainLoop e ls).1.w
+    let info := (mainLoop e ls).1.info
+    let x := e.pre.unscalePrimal e.pk w.x
+    let y := e.pre.unscaleDualEq e.pk w.y
+    let z := e.pre.unscaleDualIneq e.pk w.z
+    let zl := e.pre.unscaleDualLb e.pk w.z_lb
+    let zu := e.pre.unscaleDualUb e.pk w.z_ub
+    info.status = (mainLoop e ls).2 ∧
+    info.primalObj = e.cs.c0_5 * userQuad d0 x + ∑ i : Fin n, d0.c[i] * x[i] ∧
+    info.dualObj = -e.cs.c0_5 * userQuad d0 x - (∑ t : Fin p, d0.b[t] * y[t]) - (∑ t : Fin m, d0.h[t] * z[t])
+        - (∑ a : Fin n, if a.val < d0.lb.cnt then d0.lb.val[a] * zl[a] else 0)
+        - (∑ a : Fin n, if a.val < d0.ub.cnt then d0.ub.val[a] * zu[a] else 0) ∧
+    info.dualityGap = vabs (info.primalObj - info.dualObj) := by
+  intro w info x y z zl zu
+  have hfresh := loop_exit_fresh e (ConvInv e) (realOps_convInv e hfac hτ0 hτ1 heps hft) hmax ls.c (ls.w, ls.kkt) ls.info hinv (Or.inl h0)
+  have hst := status_eq_info_status e.st e.cs (realOps e) ls.c (ls.w, ls.kkt) ls.info
+  change Fresh e w info at hfresh
+  have ho := objectives_are_users e d0 hk hs hi w info
+  have hg := upd_gap e hk hc w info
+  refine ⟨hst, ?_, ?_, ?_⟩
+  · rw [← hfresh.diag.2.2.1]; exact ho.1
+  · rw [← hfresh.diag.2.2.2.1]; exact ho.2
+  · rw [← hfresh.diag.2.2.2.2.1, ← hfresh.diag.2.2.1, ← hfresh.diag.2.2.2.1]; exact hg
+end everyExit
 end Piqp.C09
